@@ -136,14 +136,14 @@ func (m *BlockManager) Run(ctx context.Context, interrupt <-chan interface{}) er
 }
 
 func (m *BlockManager) Stop(ctx context.Context) {
-	logger.InfoWithFields(ctx, []logger.Field{
-		logger.Int("downloader_count", len(m.downloaders)),
-	}, "Stopping block manager")
-
 	m.downloaderLock.Lock()
 	downloaders := make([]*downloadThread, len(m.downloaders))
 	copy(downloaders, m.downloaders)
 	m.downloaderLock.Unlock()
+
+	logger.InfoWithFields(ctx, []logger.Field{
+		logger.Int("downloader_count", len(downloaders)),
+	}, "Stopping block manager")
 
 	for _, dt := range downloaders {
 		dt.downloader.Cancel(ctx)
